@@ -312,14 +312,15 @@ theorem count_produces (mark : Nat → α → α) (up : Gen σ α) (cnt : σ →
 
 /-! ## `RunIf.run` -/
 
-theorem runIf_call (sel : α → Bool) (inner : α → List α) (up : Gen σ α) (cnt : σ → Nat) (fu : Nat) :
-    ∀ {s vals cf}, Produces up cnt fu s vals cf → ∀ n, vals.length < n →
-      (match (runIfSpec sel inner ⟨cnt s, vals, cf⟩).vals with
-       | [] => ∃ s', iter (runIfStep sel inner up fu) n (s, []) = .done (s', []) ∧
+theorem runIf_call {ι : Type} (sel : α → Bool) (inner : ι → α → List α × ι) (up : Gen σ α) (cnt : σ → Nat)
+    (fu : Nat) :
+    ∀ {s vals cf}, Produces up cnt fu s vals cf → ∀ (i : ι) n, vals.length < n →
+      (match runIfSpecGo sel inner i vals with
+       | [] => ∃ s' i', iter (runIfStep sel inner up fu) n (s, ([], i)) = .done (s', ([], i')) ∧
             up.next fu s' = .done s' ∧ cnt s' = cf
-       | (b, c) :: rest => ∃ s' pend vals', iter (runIfStep sel inner up fu) n (s, []) = .item b (s', pend) ∧
+       | (b, c) :: rest => ∃ s' pend i' vals', iter (runIfStep sel inner up fu) n (s, ([], i)) = .item b (s', (pend, i')) ∧
             cnt s' = c ∧ Produces up cnt fu s' vals' cf ∧ vals'.length < vals.length ∧
-            rest = pend.map (fun r => (r, cnt s')) ++ (runIfSpec sel inner ⟨cnt s', vals', cf⟩).vals) := by
+            rest = pend.map (fun r => (r, cnt s')) ++ runIfSpecGo sel inner i' vals') := by
   intro s vals cf h
   replace h : Feeds up cnt fu s vals (some cf) := h
   generalize he : some cf = e at h
@@ -327,70 +328,76 @@ theorem runIf_call (sel : α → Bool) (inner : α → List α) (up : Gen σ α)
   | more => cases he
   | @done s s' h1 h2 =>
     cases he
-    intro n hn
+    intro i n hn
     cases n with
     | zero => simp at hn
-    | succ n => exact ⟨s', iter_stop n (by simp [runIfStep, h1]), h2, rfl⟩
+    | succ n => exact ⟨s', i, iter_stop n (by simp [runIfStep, h1]), h2, rfl⟩
   | @item s s' a rest e hi hrest ih =>
     cases he
-    intro n hn
+    intro i n hn
     cases n with
     | zero => simp at hn
     | succ n =>
       have hn' : rest.length < n := by simpa using hn
       by_cases hs : sel a = true
-      · cases hin : inner a with
+      · cases hin : (inner i a).1 with
         | nil =>
-          have := ih rfl n hn'
-          simp only [runIfSpec, List.flatMap_cons, hs, if_true, hin, List.map_nil, List.nil_append]
-          rw [iter_cont (s' := (s', [])) n (by simp [runIfStep, hi, hs, hin])]
-          simp only [runIfSpec] at this
-          cases hf : List.flatMap (fun q => if sel q.1 = true then (inner q.1).map (fun r => (r, q.2)) else [q]) rest with
+          have := ih rfl (inner i a).2 n hn'
+          simp only [runIfSpecGo, hs, if_true, hin, List.map_nil, List.nil_append]
+          have hstep : runIfStep sel inner up fu (s, ([], i)) = .cont (s', ([], (inner i a).2)) := by
+            simp only [runIfStep, hi, hs, if_true]
+            rw [← hin]
+          rw [iter_cont n hstep]
+          cases hf : runIfSpecGo sel inner (inner i a).2 rest with
           | nil => rw [hf] at this; exact this
           | cons q tl =>
             rw [hf] at this
-            obtain ⟨s'', pend, vals', h1, h2, h3, h4, h5⟩ := this
-            exact ⟨s'', pend, vals', h1, h2, h3, by simp; omega, h5⟩
+            obtain ⟨s'', pend, i', vals', h1, h2, h3, h4, h5⟩ := this
+            exact ⟨s'', pend, i', vals', h1, h2, h3, by simp; omega, h5⟩
         | cons x r =>
           obtain ⟨n', rfl⟩ : ∃ n', n = n' + 1 := ⟨n - 1, by omega⟩
-          simp only [runIfSpec, List.flatMap_cons, hs, if_true, hin, List.map_cons, List.cons_append]
-          refine ⟨s', r, rest, ?_, rfl, hrest, by simp, rfl⟩
-          rw [iter_cont (s' := (s', x :: r)) (n' + 1) (by simp [runIfStep, hi, hs, hin])]
+          simp only [runIfSpecGo, hs, if_true, hin, List.map_cons, List.cons_append]
+          refine ⟨s', r, (inner i a).2, rest, ?_, rfl, hrest, by simp, rfl⟩
+          have hstep : runIfStep sel inner up fu (s, ([], i)) = .cont (s', (x :: r, (inner i a).2)) := by
+            simp only [runIfStep, hi, hs, if_true]
+            rw [← hin]
+          rw [iter_cont (n' + 1) hstep]
           exact iter_yield n' (by simp [runIfStep])
       · have hs' : sel a = false := by simpa using hs
-        simp only [runIfSpec, List.flatMap_cons, hs', Bool.false_eq_true, if_false, List.cons_append, List.nil_append]
-        exact ⟨s', [], rest, iter_yield n (by simp [runIfStep, hi, hs']), rfl, hrest, by simp, by simp⟩
+        simp only [runIfSpecGo, hs', Bool.false_eq_true, if_false]
+        exact ⟨s', [], i, rest, iter_yield n (by simp [runIfStep, hi, hs']), rfl, hrest, by simp, by simp⟩
 
-theorem runIf_produces (sel : α → Bool) (inner : α → List α) (up : Gen σ α) (cnt : σ → Nat) (fu : Nat)
+theorem runIf_produces {ι : Type} (init : ι) (sel : α → Bool) (inner : ι → α → List α × ι) (up : Gen σ α)
+    (cnt : σ → Nat) (fu : Nat)
     {s : σ} {vals : List (α × Nat)} {cf : Nat} (h : Produces up cnt fu s vals cf) (hfu : vals.length < fu) :
-    Produces (runIfG sel inner up) (fun t => cnt t.1) fu (s, [])
-      (runIfSpec sel inner ⟨cnt s, vals, cf⟩).vals cf := by
+    Produces (runIfG sel inner up) (fun t => cnt t.1) fu (s, ([], init))
+      (runIfSpec init sel inner ⟨cnt s, vals, cf⟩).vals cf := by
   have hpos : 0 < fu := by omega
   refine produces_of_calls (runIfG sel inner up) (fun t => cnt t.1) fu
     (fun t outs cf' => ∃ vals', Produces up cnt fu t.1 vals' cf' ∧ vals'.length < fu ∧
-      outs = t.2.map (fun r => (r, cnt t.1)) ++ (runIfSpec sel inner ⟨cnt t.1, vals', cf'⟩).vals) ?_ ?_ _
-    (s, []) cf ⟨vals, h, hfu, by simp⟩
-  · rintro ⟨t, pend⟩ cf' ⟨vals', h', hfu', ho⟩
+      outs = t.2.1.map (fun r => (r, cnt t.1)) ++ runIfSpecGo sel inner t.2.2 vals') ?_ ?_ _
+    (s, ([], init)) cf ⟨vals, h, hfu, by simp [runIfSpec]⟩
+  · rintro ⟨t, pend, i⟩ cf' ⟨vals', h', hfu', ho⟩
     cases pend with
     | cons x r => simp at ho
     | nil =>
       simp only [List.map_nil, List.nil_append] at ho
-      have key := runIf_call sel inner up cnt fu h' fu hfu'
+      have key := runIf_call sel inner up cnt fu h' i fu hfu'
       rw [← ho] at key
-      obtain ⟨s', h1, h2, h3⟩ := key
-      exact ⟨(s', []), h1, ofStep_stop hpos (by simp [runIfStep, h2]), h3⟩
-  · rintro ⟨t, pend⟩ b c rest cf' ⟨vals', h', hfu', ho⟩
+      obtain ⟨s', i', h1, h2, h3⟩ := key
+      exact ⟨(s', ([], i')), h1, ofStep_stop hpos (by simp [runIfStep, h2]), h3⟩
+  · rintro ⟨t, pend, i⟩ b c rest cf' ⟨vals', h', hfu', ho⟩
     cases pend with
     | cons x r =>
       simp only [List.map_cons, List.cons_append, List.cons.injEq, Prod.mk.injEq] at ho
       obtain ⟨⟨rfl, rfl⟩, rfl⟩ := ho
-      exact ⟨(t, r), ofStep_yield hpos (by simp [runIfStep]), rfl, vals', h', hfu', rfl⟩
+      exact ⟨(t, (r, i)), ofStep_yield hpos (by simp [runIfStep]), rfl, vals', h', hfu', rfl⟩
     | nil =>
       simp only [List.map_nil, List.nil_append] at ho
-      have key := runIf_call sel inner up cnt fu h' fu hfu'
+      have key := runIf_call sel inner up cnt fu h' i fu hfu'
       rw [← ho] at key
-      obtain ⟨s', pend, vals'', h1, h2, h3, h4, h5⟩ := key
-      exact ⟨(s', pend), h1, h2, vals'', h3, by omega, h5⟩
+      obtain ⟨s', pend, i', vals'', h1, h2, h3, h4, h5⟩ := key
+      exact ⟨(s', (pend, i')), h1, h2, vals'', h3, by omega, h5⟩
 
 /-! ## `itertools.islice` -/
 
